@@ -33,6 +33,7 @@ class C09(vlib.Check):
     )
 
     def gen(self, rng, tier):
+        yield 'shutdown'      # use of the library during program / thread shutdown (harness probe)
         thorough = tier == 'thorough'
         # a soak of consecutive calls on one thread (results may not depend on how many calls went before)
         yield 'soak 70000'
@@ -240,7 +241,7 @@ class C09(vlib.Check):
         sizes, seplen = {}, {}
         for c in cases:
             t = c.split()
-            if t[0] in ('fill', 'soak'):
+            if t[0] in ('fill', 'soak', 'shutdown'):
                 continue
             n = len(unhx(t[1]))
             k = str(n) if n < 9 else ('9-15' if n < 16 else '16-18' if n < 19 else '19+')
